@@ -6,6 +6,7 @@
 -/
 import AmiscProofs.Tensor
 import AmiscProofs.ListDeriv
+import AmiscProofs.StoreProofs
 
 open Polynomial Finset Lagrange
 
@@ -291,5 +292,123 @@ theorem hess_cross_is_derivative (m n : ℕ) (hmn : m ≠ n) (hn : n < x.length)
     rw [hk]; exact this
 
 end
+
+
+/-! ### the prediction of one tensor term is the tensor-product Lagrange interpolant of its data (C05) -/
+
+/-- product of the Lagrange basis polynomials of a tensor node, evaluated at `x` -/
+noncomputable def lagCoef (st : LState) (x : List Q) (j : List ℕ) : Q :=
+  ((List.range j.length).map fun d =>
+    eval (x.getD d 0) (Lagrange.basis (range (st.grids.getD d []).length) (nodeFn (st.grids.getD d [])) (j.getD d 0))).prod
+
+theorem predictT_is_lagrange_interpolant (st : LState) (x : List Q) (hd : st.grids.length = x.length)
+    (hgood : ∀ k, k < x.length → GoodDim (st.grids.getD k []) (st.wts.getD k []))
+    (rows : List (List Q)) (o : ℕ) (ho : o < (rows.head?.map List.length).getD 0) :
+    (predictT 0 st rows x).getD o 0 =
+      (((prodIdx (st.grids.map List.length)).zip rows).map fun jr => lagCoef st x jr.1 * jr.2.getD o 0).sum := by
+  unfold predictT
+  rw [tensorSum_getD _ _ rows o ho]
+  congr 1
+  apply List.map_congr_left
+  intro jr hjr
+  obtain ⟨hl, hb⟩ := mem_prodIdx _ jr.1 (List.of_mem_zip hjr).1
+  simp only [List.length_map] at hl hb
+  congr 1
+  unfold coefOf lagCoef
+  congr 1
+  apply List.map_congr_left
+  intro k hk
+  rw [List.mem_range] at hk
+  have hkx : k < x.length := by omega
+  have ha : jr.1.getD k 0 < (st.grids.getD k []).length := by
+    have := hb k (by omega)
+    simpa [List.getD_eq_getElem?_getD, List.getElem?_eq_getElem (show k < st.grids.length by omega)] using this
+  rw [factorTable_entry st x _ k _ hkx ha]
+  obtain ⟨c, hc, hw⟩ := (hgood k hkx).wt
+  exact basis_eq_eval _ _ (hgood k hkx).nodup (hgood k hkx).len c hc hw _ _ ha
+
+
+theorem sum_zip_single {α : Type} [DecidableEq α] : ∀ (L : List α) (R : List (List Q)) (g : List Q → Q) (k : ℕ)
+    (hk : k < L.length), L.Nodup → R.length = L.length →
+    ((L.zip R).map fun jr => if jr.1 = L[k] then g jr.2 else 0).sum = g (R.getD k [])
+  | [], _, _, k, hk, _, _ => by simp at hk
+  | a :: L, [], _, _, _, _, hR => by simp at hR
+  | a :: L, r :: R, g, 0, _, hnd, _ => by
+      have hna : ∀ jr ∈ L.zip R, jr.1 ≠ a := by
+        intro jr hjr e
+        exact (List.nodup_cons.mp hnd).1 (e ▸ (List.of_mem_zip hjr).1)
+      simp only [List.zip_cons_cons, List.map_cons, List.sum_cons, List.getElem_cons_zero, if_true, List.getD_cons_zero]
+      have : ((L.zip R).map fun jr => if jr.1 = a then g jr.2 else 0) = (L.zip R).map fun _ => (0 : Q) :=
+        List.map_congr_left fun jr hjr => if_neg (hna jr hjr)
+      rw [this]; simp
+  | a :: L, r :: R, g, k + 1, hk, hnd, hR => by
+      have hnd' := List.nodup_cons.mp hnd
+      have hk' : k < L.length := by simpa using hk
+      have hne : a ≠ L[k] := fun e => hnd'.1 (e ▸ List.getElem_mem hk')
+      simp only [List.zip_cons_cons, List.map_cons, List.sum_cons, List.getElem_cons_succ, List.getD_cons_succ, if_neg hne,
+        zero_add]
+      exact sum_zip_single L R g k hk' hnd'.2 (by simpa using hR)
+
+/-- at a grid point the product of basis values is the indicator of that node -/
+theorem lagCoef_at_node (st : LState) (x : List Q) (hd : st.grids.length = x.length)
+    (hgood : ∀ k, k < x.length → GoodDim (st.grids.getD k []) (st.wts.getD k []))
+    (j js : List ℕ) (hj : j ∈ prodIdx (st.grids.map List.length)) (hjs : js ∈ prodIdx (st.grids.map List.length))
+    (hx : ∀ k, k < x.length → x.getD k 0 = nodeFn (st.grids.getD k []) (js.getD k 0)) :
+    lagCoef st x j = if j = js then 1 else 0 := by
+  obtain ⟨hl, hb⟩ := mem_prodIdx _ j hj
+  obtain ⟨hls, hbs⟩ := mem_prodIdx _ js hjs
+  simp only [List.length_map] at hl hb hls hbs
+  have hsz : ∀ k, k < x.length → ∀ (i : List ℕ), i.getD k 0 < (st.grids.map List.length).getD k 0 →
+      i.getD k 0 < (st.grids.getD k []).length := by
+    intro k hk i h
+    simpa [List.getD_eq_getElem?_getD, List.getElem?_eq_getElem (show k < st.grids.length by omega)] using h
+  unfold lagCoef
+  by_cases hjj : j = js
+  · subst hjj
+    rw [if_pos rfl]
+    apply List.prod_eq_one
+    intro v hv
+    rw [List.mem_map] at hv
+    obtain ⟨k, hk, rfl⟩ := hv
+    rw [List.mem_range] at hk
+    have hkx : k < x.length := by omega
+    rw [hx k hkx]
+    exact eval_basis_self (injOn_nodeFn (hgood k hkx).nodup) (mem_range.mpr (hsz k hkx j (hb k (by omega))))
+  · rw [if_neg hjj]
+    -- some coordinate differs
+    have : ∃ k, k < j.length ∧ j.getD k 0 ≠ js.getD k 0 := by
+      apply Classical.byContradiction
+      intro hne
+      apply hjj
+      apply List.ext_getElem (by omega)
+      intro k h1 h2
+      have := Classical.not_not.mp (fun h => hne ⟨k, h1, h⟩)
+      simpa [List.getD_eq_getElem?_getD, List.getElem?_eq_getElem h1, List.getElem?_eq_getElem h2] using this
+    obtain ⟨k, hk, hne⟩ := this
+    have hkx : k < x.length := by omega
+    apply List.prod_eq_zero
+    rw [List.mem_map]
+    refine ⟨k, List.mem_range.mpr hk, ?_⟩
+    rw [hx k hkx]
+    exact eval_basis_of_ne hne (mem_range.mpr (hsz k hkx js (hbs k (by omega))))
+
+/-- **each term reproduces its training data**: at the grid point of tensor node number `n` the prediction is the `n`-th data
+    row -/
+theorem predictT_at_node (st : LState) (x : List Q) (hd : st.grids.length = x.length)
+    (hgood : ∀ k, k < x.length → GoodDim (st.grids.getD k []) (st.wts.getD k []))
+    (rows : List (List Q)) (o : ℕ) (ho : o < (rows.head?.map List.length).getD 0)
+    (hrows : rows.length = (prodIdx (st.grids.map List.length)).length)
+    (n : ℕ) (hn : n < (prodIdx (st.grids.map List.length)).length)
+    (hx : ∀ k, k < x.length →
+      x.getD k 0 = nodeFn (st.grids.getD k []) (((prodIdx (st.grids.map List.length))[n]).getD k 0)) :
+    (predictT 0 st rows x).getD o 0 = (rows.getD n []).getD o 0 := by
+  rw [predictT_is_lagrange_interpolant st x hd hgood rows o ho]
+  have hmem := List.getElem_mem hn
+  rw [← sum_zip_single (prodIdx (st.grids.map List.length)) rows (fun r => r.getD o 0) n hn (Amisc.prodIdx_nodup _) hrows]
+  congr 1
+  apply List.map_congr_left
+  intro jr hjr
+  rw [lagCoef_at_node st x hd hgood jr.1 _ (List.of_mem_zip hjr).1 hmem hx]
+  by_cases h : jr.1 = (prodIdx (st.grids.map List.length))[n] <;> simp [h]
 
 end Amisc.TD
